@@ -456,3 +456,15 @@ func (p *Program) globalInit(v *types.Var) *globalInitInfo {
 	}
 	return p.globals[v]
 }
+
+func (p *Program) everWritten(key string) bool {
+	if p.allWritten == nil {
+		p.allWritten = map[string]bool{}
+		for _, ms := range p.ModSets {
+			for k := range ms {
+				p.allWritten[k] = true
+			}
+		}
+	}
+	return p.allWritten[key]
+}
